@@ -21,6 +21,17 @@ CLAIMS.update({
          "3.3, 3.4, 4 (C15)"),
 })
 
+CLAIMS.update({
+ "C05": ("SSA path/dominance guards in allocator.place, value-class check of row stores, sentinel affine form, call-order and guard checks in lalr.Compile",
+         "Decides necessary conditions of decode equivalence of the displacement encoding: no two rows can obtain the same base on any path of allocator.place, cached bases are reused only after bounds and cell comparison, stored cell values belong to the documented classes, the defaultReduce sentinel cannot collide with a shift/error/rule code and only sentinel cells are substituted, Optimize runs last and never on tables with deep-lookahead pointers.",
+         "Row packing search itself (first-fit) and pickDefault are not examined; class table taken from lalr/optimize.go comments confirmed against the writers.",
+         "3.1, 3.5, 4 (C05)"),
+ "C06": ("field-coverage and def-use rules over lalr/minimize.go; call-order check",
+         "Decides that minimize can know the entry states, that the rule-class key contains every component the property lists (with the length the parser pops), that every state-numbered table is remapped and that the refinement signature has the Moore form. Necessary conditions of behaviour preservation; equivalence on all inputs is not decided.",
+         "Entry states are 0..len(Inputs)-1 (computeStates) and generated parsers start at the input index (templates).",
+         "3.5, 4 (C06)"),
+})
+
 NA = {
 }
 
